@@ -28,6 +28,9 @@ var savedStderrFd = -1
 
 // gocoin prints a lot while reorganising (fmt.Println → os.Stdout, println → fd 2): silence both while scenarios run.
 func quiet() {
+	if os.Getenv("C06_LOUD") != "" { // development aid: let gocoin's console output through
+		return
+	}
 	dn, err := os.OpenFile(os.DevNull, os.O_WRONLY, 0)
 	if err != nil {
 		return
@@ -162,11 +165,11 @@ func main() {
 	}
 
 	// 6. header-first delivery (the client's path): the random trees again, headers running ahead of the data
-	n = r.N(12, 160)
+	n = r.N(10, 100)
 	for i := 0; i < n; i++ {
 		runScenario("random-headers", false, g.U64(), 8+g.Intn(21))
 	}
-	n = r.N(3, 40)
+	n = r.N(2, 20)
 	for i := 0; i < n; i++ {
 		runScenario("random-headers-mixed-bits", false, g.U64(), 8+g.Intn(21))
 	}
